@@ -251,6 +251,32 @@ def run(index, tier="quick", seed=0) -> Result:
             res.ok("SORT-1", k)
     from ..parallel import report as _copy1
     _copy1(res, index, lambda f: f['cls'] in ('Circle', 'Ellipse', 'Sphere', 'Ellipsoid') and f['top'] not in ('is_inside', 'distance_to_surface', 'compute_form_factor_amplitude', 'to_hoomd'))
+    # DTYPE-1: centres given as integers (`center=(1, -2, 3)`) are stored as integer arrays when the setter does not fix
+    # the dtype; an in-place float update of an array derived from them truncates (or raises) instead of computing
+    from ..interp import Interp as _Interp
+    for cname_ in ("Circle", "Ellipse", "Sphere", "Ellipsoid"):
+        cls_ = index.cls(cname_)
+        pc_ = index.effective_prop(cls_, "centroid")
+        mi_attrs = set()
+        if pc_ is not None and pc_.setter is not None:
+            rs_ = _Interp(index).run_entry(pc_.setter, cls_)
+            for e_ in rs_["events"]:
+                if e_.type == "write" and e_.loc[0] == "self" and e_.rhs is not None and "maybe-int" in e_.rhs.tags:
+                    mi_attrs.add(e_.loc[1])
+        for member_ in ("inertia_tensor", "planar_moments_inertia", "polar_moment_inertia"):
+            pm_ = index.effective_prop(cls_, member_)
+            if pm_ is None or pm_.getter is None:
+                continue
+            rg_ = _Interp(index, config={"maybe_int_attrs": tuple(mi_attrs)}).run_entry(pm_.getter, cls_)
+            bad_ = [e_ for e_ in rg_["events"] if e_.type == "int-inplace"]
+            k_ = f"{cname_}.{member_}"
+            if bad_:
+                e_ = bad_[0]
+                res.bad("DTYPE-1", f"{k_}:{e_.target}:{e_.op}", e_.where(), f"{k_}: `{e_.src()[:60]}` writes floating-point values into an array whose dtype "
+                        f"comes from the caller's centre (stored without dtype in {sorted(mi_attrs)}): for an integer centre such as (1, -2, 3) the "
+                        "values are truncated to integers (or numpy refuses the cast)")
+            else:
+                res.ok("DTYPE-1", k_, nontrivial=bool(mi_attrs))
     return res
 
 
